@@ -1,4 +1,5 @@
 import BobModel.Proofs.C10
+import BobModel.Proofs.C10Fault
 /-
 C10 — Workspace state commits atomically and is single-writer.
 
@@ -166,6 +167,175 @@ theorem async_defers {σ μ : Type} (c : Cfg σ μ) (mem : Mem σ) (cs : List (C
       (if (foldMuts c mem.cur false cs).2 then saveEvs c (foldMuts c mem.cur false cs).1 else []) :=
   async_section c mem cs h0 hd h hb
 
+/-! ### I/O errors of the file-system calls
+
+`runInvF` is `runInv` with a fault choice at every file-system call of `__init__` (lock creation, the
+start-up `__commit(verify=True)`, opening the state file, the `finalize()` of the error path), of every
+`__save` (open / write after k bytes / rename) and of `finalize` (`__commit(verify=False)`: exists, open,
+fsync, rename, the discarding unlink; the unlink of the lock).  `SessionF` adds kills and machine crashes at
+an arbitrary event.  The ghost marker `saved s` is emitted only when the rename of `__save` is performed and
+`endInv` only when the commit of `finalize` met no error, so the admissible set is exactly
+{state committed by the last `finalize` that met no I/O error} ∪ {snapshots whose `__save` completed since}:
+a snapshot whose save raised `ParseError` is *not* recoverable and a `finalize` whose commit failed (warning
+only, the uncommitted file is deleted by the code) does *not* make its state durable. -/
+
+/-- the exception handling that `saveF` / `commitF` / `discardOps` / `finalizeF` transliterate is the one of the
+current source: `__save` turns OSError into ParseError and renames only after the writes (no nested try, no
+finally); the `try` of `__commit` catches OSError with a warning and falls through to the unlink, whose
+FileNotFoundError is ignored and whose OSError is a warning; `finalize` commits with `verify=False`. -/
+theorem fault_handling_matches_model :
+    Consts.C10.saveHandlers = [("OSError", "raise ParseError")] ∧ Consts.C10.saveRenameLastInTry = true ∧
+    Consts.C10.saveNestedTries = 0 ∧ Consts.C10.commitHandlers = [("OSError", "warn")] ∧
+    Consts.C10.commitNestedTries = 0 ∧
+    Consts.C10.discardHandlers = [("FileNotFoundError", "pass"), ("OSError", "warn")] ∧
+    Consts.C10.finalizeVerifies = false := by
+  decide
+
+/-- **recover_is_snapshot_faulty** (partial: hypothesis `StartOK` on every start-up — `os.path.exists` of the
+uncommitted file does not fail and the unlink of a rejected uncommitted file does not fail).  For every
+sequence of sessions with arbitrary I/O errors in `__save`, `__commit`, `finalize`, `__init__`, each session
+either complete or cut at an arbitrary event and crashed with a detectable garbling: the next start loads,
+without error, the state committed by the last error-free `finalize` or a snapshot completely saved since. -/
+theorem recover_is_snapshot_faulty_partial {σ μ : Type} (c : Cfg σ μ) (hc : c.Lawful) (ss : List (SessionF μ))
+    (iv : InvF μ) (cut : Nat) (g : Garble)
+    (hd : ∀ s ∈ ss ++ [SessionF.crashed iv cut g], s.Det)
+    (hs : ∀ s ∈ ss ++ [SessionF.crashed iv cut g], s.iv.init.StartOK) :
+    let r := runSessionsF c FS.empty Ghost.init (ss ++ [.crashed iv cut g])
+    ∃ x, (initRun c r.1).res = .ok x ∧ Adm r.2 x := by
+  intro r
+  have hinv := runSessionsF_inv c hc (ss ++ [.crashed iv cut g]) FS.empty Ghost.init hd hs (Inv_init c)
+  exact fresh_start c hc _ _ hinv (runSessionsF_lock c ss iv cut g _ _)
+
+/-- the same at every prefix of one faulty invocation started from any directory satisfying the invariant:
+the crash-stable invariant holds at every event (so the statement above also covers a crash during the
+fault handling itself, e.g. between the failed fsync and the unlink) -/
+theorem faulty_invocation_every_prefix {σ μ : Type} (c : Cfg σ μ) (hc : c.Lawful) (fs : FS) (G : Ghost σ)
+    (iv : InvF μ) (hs : iv.init.StartOK) (h : Inv c fs G) (n : Nat) (g : Garble) (hg : Detectable g) :
+    let evs := (runInvF c fs iv).take n
+    ∃ x, (initRun c (recover (applyEvs fs evs) g)).res = .ok x ∧ Adm (G.run evs) x := by
+  intro evs
+  have h1 := AllPre_take (runInvF_pre c hc fs G iv hs h) n
+  exact fresh_start c hc _ _ (Inv_recover c _ _ g hg h1) (recover_lock _ g)
+
+/-- the full-strength statement (no `StartOK`): NOT a theorem of the model of the current code, see below -/
+def recover_is_snapshot_faulty_goal : Prop :=
+  ∀ {σ μ : Type} (c : Cfg σ μ), c.Lawful → ∀ (ss : List (SessionF μ)) (iv : InvF μ) (cut : Nat) (g : Garble),
+    (∀ s ∈ ss ++ [SessionF.crashed iv cut g], s.Det) →
+    ∃ x, (initRun c (runSessionsF c FS.empty Ghost.init (ss ++ [.crashed iv cut g])).1).res = .ok x ∧
+      Adm (runSessionsF c FS.empty Ghost.init (ss ++ [.crashed iv cut g])).2 x
+
+/-- a failed `__save` (any of the three fault points) raises and leaves the committed file, the uncommitted
+file and the lock exactly as they were; only `.dirty` (never read by anybody) changes -/
+theorem failed_save_changes_nothing {σ μ : Type} (c : Cfg σ μ) (fs : FS) (s : σ) (sf : SaveFault) :
+    (saveF c s (some sf)).2 = true ∧
+    (applyEvs fs (saveF c s (some sf)).1) .pickle = fs .pickle ∧
+    (applyEvs fs (saveF c s (some sf)).1) .new = fs .new ∧
+    (applyEvs fs (saveF c s (some sf)).1) .lock = fs .lock := by
+  cases sf <;> simp [saveF, applyEvs, applyEv, applyOp, FS.set]
+
+/-- **fault_then_success_durable.**  Whatever happened before (any directory content `fs`, any in-memory state:
+in particular after any history of failed saves, failed commits and crashes): an API call whose `__save`
+meets no error followed by a `finalize` that meets no error leaves exactly the then-current in-memory state
+committed and synced, no uncommitted file, the lock released; every later crash — with *any* garbling —
+recovers exactly that state. -/
+theorem fault_then_success_durable {σ μ : Type} (c : Cfg σ μ) (hc : c.Lawful) (fs : FS) (mem : Mem σ) (m : μ)
+    (locked : Bool) (g : Garble) (ha : mem.async = 0) (hsv : (c.step mem.cur m).2 = true) :
+    let r := callStepF c mem none (.mut m)
+    let fs1 := applyEvs fs r.2.1
+    let fs2 := applyEvs fs1 (finalizeF fs1 r.1 locked FinFault.none)
+    r.2.2 = 0 ∧ r.1.cur = (c.step mem.cur m).1 ∧
+    fs2 .pickle = some ⟨encS c r.1.cur, true⟩ ∧ fs2 .new = none ∧ (locked = true → fs2 .lock = none) ∧
+    (initRun c (recover fs2 g)).res = .ok (some r.1.cur) := by
+  intro r fs1 fs2
+  have hr : r = (⟨(c.step mem.cur m).1, mem.async, false⟩, saveEvs c (c.step mem.cur m).1, 0) := by
+    simp [r, callStepF, hsv, ha, saveF]
+  have hfin : finalizeF fs1 r.1 locked FinFault.none =
+      (finOpsF fs1 locked FinFault.none).map .op ++ [.endInv] := by
+    simp [finalizeF, finalizeOk, hr, ha, FinFault.none, CF.none]
+  have hfs2 : fs2 = applyOps fs1 (finOpsF fs1 locked FinFault.none) := by
+    simp only [fs2, hfin, applyEvs_append, applyEvs_mapop]
+    rfl
+  have hd := save_fin_durable c hc fs (c.step mem.cur m).1 locked g
+  simp only at hd
+  have hfs1 : fs1 = applyEvs fs (saveEvs c (c.step mem.cur m).1) := by simp [fs1, hr]
+  rw [hfs2, hfs1]
+  refine ⟨by simp [hr], by simp [hr], ?_⟩
+  simpa [hr] using hd
+
+/-- **single writer with faults.**  While the lock file exists, a start whose lock creation is answered with
+EEXIST is refused having changed nothing, whatever other faults are pending -/
+theorem second_instance_refused_faulty {σ μ : Type} (c : Cfg σ μ) (fs : FS) (ift : InitFault)
+    (h : (fs .lock).isSome = true) (hl : ift.lock = false) :
+    (initF c fs ift).res = .error .locked ∧ (initF c fs ift).evs = [.op (.createExcl .lock)] ∧
+      (initF c fs ift).locked = false ∧ applyEvs fs (initF c fs ift).evs = fs := by
+  cases hlk : fs .lock with
+  | none => simp [hlk] at h
+  | some f => simp [initF, hl, hlk, applyEvs, applyEv, applyOp]
+
+/-- the interleaving statement with faults (goal only, NOT proved: the induction over `step2F` is missing; the
+three facts it rests on are the theorems `second_instance_refused_faulty`, `lock_holder_created_lock`,
+`unlocked_instance_never_unlocks` around it).  Note what it does *not* say: an instance whose lock creation
+failed with an errno other than EEXIST runs without the lock (warning only), so two instances can be live. -/
+def single_writer_faulty_goal : Prop :=
+  ∀ {σ μ : Type} (c : Cfg σ μ) (acts : List (ActF μ)),
+    let w := run2F c ⟨FS.empty, none, none⟩ acts
+    ¬ (holdsLock w.ma = true ∧ holdsLock w.mb = true) ∧
+      ((holdsLock w.ma = true ∨ holdsLock w.mb = true) → (w.fs .lock).isSome = true)
+
+/-- an instance that holds the lock created it itself: its start found no lock file -/
+theorem lock_holder_created_lock {σ μ : Type} (c : Cfg σ μ) (fs : FS) (ift : InitFault)
+    (h : (initF c fs ift).locked = true) : fs .lock = none ∧ ift.lock = false := by
+  unfold initF at h
+  split at h
+  · cases h
+  · rename_i hc
+    cases hl : ift.lock with
+    | true =>
+      exfalso
+      simp only [hl] at h
+      repeat' split at h
+      all_goals simp at h
+    | false =>
+      cases hk : fs .lock with
+      | none => exact ⟨rfl, rfl⟩
+      | some f => simp [hl, hk] at hc
+
+/-- an instance that runs unlocked (non-EEXIST error at the lock creation: warning only — this is the code)
+never removes the lock file of another instance: neither its `finalize` nor any of its calls -/
+theorem unlocked_instance_never_unlocks {σ μ : Type} (c : Cfg σ μ) (fs : FS) (mem : Mem σ) (ff : FinFault)
+    (sf : Option SaveFault) (cl : Call μ) :
+    (applyEvs fs (finalizeF fs mem false ff)) .lock = fs .lock ∧
+    (applyEvs fs (callStepF c mem sf cl).2.1) .lock = fs .lock := by
+  constructor
+  · unfold finalizeF
+    split
+    · rw [applyEvs_append, applyEvs_mapop]
+      have : finOpsF fs false ff = commitF fs false ff.commit := by simp [finOpsF]
+      rw [this]
+      split <;> simp [applyEvs, applyEv, commitF_lock]
+    · rfl
+  · have hsv : ∀ s, (applyEvs fs (saveF c s sf).1) .lock = fs .lock := by
+      intro s
+      cases sf with
+      | none => exact saveEvs_lock c fs s
+      | some f => exact (failed_save_changes_nothing c fs s f).2.2.2
+    cases cl with
+    | «mut» m =>
+      simp only [callStepF]
+      split
+      · split
+        · exact hsv _
+        · rfl
+      · rfl
+    | setAsync => rfl
+    | setSync =>
+      simp only [callStepF]
+      split
+      · rfl
+      · split
+        · exact hsv _
+        · rfl
+
 /-! ### the hypotheses are satisfiable: a small concrete instance -/
 
 /-- toy codec: states are bytes, the pickle is `[version, state]` -/
@@ -198,5 +368,48 @@ example :
 example : Inside (μ := UInt8) 1 [.mut 1, .setAsync, .mut 2, .setSync, .mut 3] ∧
     depthAfter (μ := UInt8) 1 [.mut 1, .setAsync, .mut 2, .setSync, .mut 3] = 1 := by
   simp [Inside, depthAfter]
+
+/-! ### the full-strength fault statement fails for the current code -/
+
+/-- the failing history: (1) an invocation saves 7 and finalizes; (2) the next saves 9 and the machine crashes
+right after the rename of `__save`, the unsynced uncommitted file comes back empty; (3) the next start rejects
+it, but the `os.unlink` of the rejected file fails (warning only) — the invocation saves nothing and its
+`finalize` commits the rejected file *without verification* over the good state; (4) the next start cannot
+decode the state file. -/
+def cexSessions : List (SessionF UInt8) :=
+  [ .complete ⟨InitFault.none, [(.mut 7, none)], FinFault.none⟩,
+    .crashed ⟨InitFault.none, [(.mut 9, none)], FinFault.none⟩ 9 (fun _ _ => []),
+    .complete ⟨⟨false, ⟨none, true⟩, false, FinFault.none⟩, [], FinFault.none⟩ ]
+
+theorem cex_unreadable :
+    (initRun toy (runSessionsF toy FS.empty Ghost.init
+      (cexSessions ++ [.crashed ⟨InitFault.none, [], FinFault.none⟩ 0 (fun _ d => d)])).1).res =
+      .error (.load .decode) := by
+  rfl
+
+theorem faulty_goal_fails : ¬ recover_is_snapshot_faulty_goal := by
+  intro h
+  have hl : toy.Lawful := by
+    intro s t
+    simp [toy, Consts.C10.curVersion]
+  have hdet : ∀ s ∈ cexSessions ++ [SessionF.crashed ⟨InitFault.none, [], FinFault.none⟩ 0 (fun _ d => d)], s.Det := by
+    intro s hs
+    simp [cexSessions] at hs
+    rcases hs with hs | hs | hs | hs <;> subst hs
+    · trivial
+    · exact detectable_examples.2.2.1
+    · trivial
+    · exact detectable_examples.1
+  obtain ⟨x, hx, _⟩ := h toy hl cexSessions ⟨InitFault.none, [], FinFault.none⟩ 0 (fun _ d => d) hdet
+  rw [cex_unreadable] at hx
+  cases hx
+
+/-- a faulty history satisfying the hypotheses of `recover_is_snapshot_faulty_partial`: ENOSPC in the write of
+the second save, a failed fsync in `finalize` (the code deletes the uncommitted file): the first snapshot -/
+example :
+    (initRun toy (runSessionsF toy FS.empty Ghost.init
+      [.complete ⟨InitFault.none, [(.mut 7, none), (.mut 9, some (.write 1))], ⟨⟨some .fsync, false⟩, false⟩⟩,
+       .crashed ⟨InitFault.none, [], FinFault.none⟩ 0 (fun _ _ => [])]).1).res = .ok none := by
+  rfl
 
 end C10
